@@ -16,6 +16,7 @@ RULE = (
     "percent-encoding, CRLF framing), parsed by parse_raw_http and compared part for part. Responses likewise over "
     "status x reason x headers x bodies. Malformed start lines (0, 1, 2, 4+ tokens, non-numeric status, empty input) "
     "must raise ValueError. non-trivial = the message has at least one parameter, header or body byte"
+    '. Added: returned maps are poisoned and the message parsed again, Content-Length vs body, methods in any case, case-differing header names, status lines with fewer / more than three parts. '
 )
 ASSUMPTIONS = [
     "paths are ASCII origin-form (start with one '/', no '?' or '#', not '//', which is the authority form)",
